@@ -16,4 +16,5 @@ var Registry = map[string]func(Args) error{
 	"closenotify": CloseNotify,
 	"serial":      Serial,
 	"isolation":   Isolation,
+	"write":       Write,
 }
